@@ -58,33 +58,97 @@ def _env():
     return e
 
 
-def run_worker(jobs, on_result):
-    """run a batch in one worker process; returns list of jobs that produced no result"""
-    budget = sum(float(j["obl"]["timeout"]) * (1.3 if j["mode"] == "check" else 1.0) for j in jobs) + 90 + 20 * len(jobs)
-    p = subprocess.Popen([PY, "-m", "vlib.worker"], stdin=subprocess.PIPE, stdout=subprocess.PIPE, stderr=subprocess.PIPE,
-                         text=True, env=_env(), cwd=VERIF)
-    done = set()
-    err_tail = []
-    def rd_err():
-        for line in p.stderr:
-            err_tail.append(line); del err_tail[:-40]
-    te = threading.Thread(target=rd_err, daemon=True); te.start()
-    timer = threading.Timer(budget, p.kill); timer.start()
-    try:
-        p.stdin.write(json.dumps(jobs)); p.stdin.close()
-        for line in p.stdout:
-            if line.startswith("RESULT "):
-                r = json.loads(line[7:])
-                done.add((r["id"], r["mode"]))
-                on_result(r)
-        p.wait()
-    finally:
-        timer.cancel()
-    missing = [j for j in jobs if (j["obl"]["id"], j["mode"]) not in done]
-    return missing, "".join(err_tail)[-1500:]
+class WorkerProc:
+    """persistent worker: jobs are fed one at a time (one import of Home Assistant + CrossHair per worker, dynamic load balancing)"""
+    def __init__(self):
+        self.p = subprocess.Popen([PY, "-m", "vlib.worker"], stdin=subprocess.PIPE, stdout=subprocess.PIPE, stderr=subprocess.PIPE,
+                                  text=True, env=_env(), cwd=VERIF, bufsize=1)
+        self.err_tail = []
+        threading.Thread(target=self._rd_err, daemon=True).start()
+
+    def _rd_err(self):
+        for line in self.p.stderr:
+            self.err_tail.append(line); del self.err_tail[:-40]
+
+    def run(self, job):
+        """returns the RESULT dict or None if the worker died / exceeded its budget"""
+        budget = float(job["obl"]["timeout"]) * 1.5 + 150
+        timer = threading.Timer(budget, self.p.kill); timer.start()
+        try:
+            self.p.stdin.write(json.dumps(job) + "\n"); self.p.stdin.flush()
+            for line in self.p.stdout:
+                if line.startswith("RESULT "):
+                    return json.loads(line[7:])
+            return None
+        except (BrokenPipeError, OSError):
+            return None
+        finally:
+            timer.cancel()
+
+    def alive(self):
+        return self.p.poll() is None
+
+    def close(self):
+        try:
+            self.p.stdin.close()
+        except Exception:
+            pass
+        try:
+            self.p.wait(timeout=10)
+        except Exception:
+            self.p.kill()
+
+    def err(self):
+        return "".join(self.err_tail)[-1500:]
+
+
+_REPLAY_CACHE = {}
+
+
+def _rkey(obl, args, kwargs, mode, real_loop, trace):
+    return repr((obl.id, obl.func, repr(list(args)), repr(dict(kwargs)), mode, bool(real_loop), bool(trace)))
 
 
 def run_replay(obl, args, kwargs, mode="check", real_loop=False, trace=False, timeout=600):
+    k = _rkey(obl, args, kwargs, mode, real_loop, trace)
+    if k in _REPLAY_CACHE:
+        return _REPLAY_CACHE[k]
+    r = _run_replay(obl, args, kwargs, mode, real_loop, trace, timeout)
+    _REPLAY_CACHE[k] = r
+    return r
+
+
+def prefetch_replays(obls, results):
+    """run all replays that the verdict phase will need, in parallel"""
+    from concurrent.futures import ThreadPoolExecutor
+    todo = []
+    for o in obls:
+        r = results.get((o.id, "check"))
+        if r and not r.get("error"):
+            if o.engine == "smt":
+                if r.get("verdict") == "sat":
+                    ro = Obl.from_json(o.to_json()); ro.func = o.func + "_replay"
+                    todo.append((ro, r.get("witness_args", []), {}, "check", False, False))
+            else:
+                m = [m for m in r["messages"] if m["state"] in FAIL_STATES]
+                if m:
+                    c = parse_call(m[0]["message"], o.func)
+                    if c:
+                        todo.append((o, c[0], c[1], "check", False, False))
+                        if o.real_loop:
+                            todo.append((o, c[0], c[1], "check", True, False))
+        tr = results.get((o.id, "twin"))
+        if o.twin and tr and not tr.get("error"):
+            m = [m for m in tr["messages"] if m["state"] in FAIL_STATES]
+            if m:
+                c = parse_call(m[0]["message"], o.func)
+                if c:
+                    todo.append((o, c[0], c[1], "twin", False, True))
+    with ThreadPoolExecutor(NWORK) as ex:
+        list(ex.map(lambda t: run_replay(*t), todo))
+
+
+def _run_replay(obl, args, kwargs, mode="check", real_loop=False, trace=False, timeout=600):
     job = {"obl": obl.to_json(), "args_repr": repr(list(args)), "kwargs_repr": repr(dict(kwargs)), "mode": mode, "real_loop": real_loop, "trace": trace}
     try:
         p = subprocess.run([PY, "-m", "vlib.replay", json.dumps(job)], capture_output=True, text=True, env=_env(), cwd=VERIF, timeout=timeout)
@@ -145,14 +209,10 @@ def check_property(pid, tier, seed, only=None):
             jobs.append({"obl": o.to_json(), "mode": "twin"})
     rnd = random.Random(seed)
     rnd.shuffle(jobs)
-    jobs.sort(key=lambda j: -float(j["obl"]["timeout"]))
-    big = [[j] for j in jobs if float(j["obl"]["timeout"]) >= 100]
-    small = [j for j in jobs if float(j["obl"]["timeout"]) < 100]
-    nchunks = max(1, min(len(small), NWORK * 3))
-    chunks = [small[i::nchunks] for i in range(nchunks)] if small else []
+    jobs.sort(key=lambda j: -float(j["obl"]["timeout"]))      # longest budgets first
     q = queue.Queue()
-    for c in big + chunks:
-        q.put((c, 0))
+    for jb in jobs:
+        q.put((jb, 0))
     lock = threading.Lock()
 
     def on_result(r):
@@ -160,27 +220,35 @@ def check_property(pid, tier, seed, only=None):
             results[(r["id"], r["mode"])] = r
 
     def work():
-        while True:
-            try:
-                chunk, attempt = q.get_nowait()
-            except queue.Empty:
-                return
-            missing, err = run_worker(chunk, on_result)
-            if missing:
+        wp = None
+        try:
+            while True:
+                try:
+                    jb, attempt = q.get_nowait()
+                except queue.Empty:
+                    return
+                if wp is None or not wp.alive():
+                    wp = WorkerProc()
+                r = wp.run(jb)
+                if r is not None:
+                    on_result(r); continue
+                err = wp.err(); wp.close(); wp = None
                 if attempt == 0:
-                    for j in missing:
-                        q.put(([j], 1))
+                    q.put((jb, 1))
                 else:
-                    for j in missing:
-                        on_result({"id": j["obl"]["id"], "mode": j["mode"], "messages": [], "error": "worker died/timeout: " + err,
-                                   "paths": 0, "nontrivial": 0, "solver": {}, "wall_s": 0})
+                    on_result({"id": jb["obl"]["id"], "mode": jb["mode"], "messages": [], "error": "worker died/timeout: " + err,
+                               "paths": 0, "nontrivial": 0, "solver": {}, "wall_s": 0})
+        finally:
+            if wp is not None:
+                wp.close()
 
-    threads = [threading.Thread(target=work) for _ in range(min(NWORK, q.qsize()))]
+    threads = [threading.Thread(target=work) for _ in range(min(NWORK, max(1, q.qsize())))]
     for t in threads: t.start()
     for t in threads: t.join()
-    # a second pass for re-queued singles (threads may have exited before re-queue)
-    while not q.empty():
+    while not q.empty():          # re-queued jobs whose thread had already exited
         work()
+
+    prefetch_replays(obls, results)
 
     # ---- verdicts
     discharged = 0
